@@ -77,6 +77,20 @@ var _ = reserr.ErrNotFound
 //@   loop 2 invariant res != nil && res == r.Result && res.Model == nil && res.Collection != nil && r.Error == nil
 //@   loop 2 invariant forall i int :: 0 <= i && i < rangeidx2 ==> res.Collection[i].Type >= ValueTypePrimitive
 
+// A value from a service: the raw message handed to UnmarshalJSON by encoding/json is a
+// non-empty JSON value without leading white space only by convention; the loop that skips
+// white space relies on the value containing a non-space byte (assumed: json.RawMessage of a
+// syntactically valid value). A reference is accepted only with a valid resource id; ambiguous
+// or unknown objects and nested arrays are errors.
+//@ func (*Value).UnmarshalJSON
+//@   requires v != nil
+//@   assumes exists j int :: 0 <= j && j < len(data) && data[j] != 32 && data[j] != 9 && data[j] != 10 && data[j] != 13
+//@   ensures[C14,C15] result == nil && (v.Type == ValueTypeReference || v.Type == ValueTypeSoftReference) ==> predValidRID(v.RID, true)
+//@   ensures[C15] result == nil ==> v.Type == ValueTypePrimitive || v.Type == ValueTypeReference || v.Type == ValueTypeSoftReference ||
+//@       v.Type == ValueTypeDelete || v.Type == ValueTypeData
+//@   safety[C15]
+//@   loop 1 invariant 0 <= i && (exists j int :: i <= j && j < len(v.RawMessage) && v.RawMessage[j] != 32 && v.RawMessage[j] != 9 && v.RawMessage[j] != 10 && v.RawMessage[j] != 13)
+
 //@ func EncodeChangeEvent
 //@   assigns nothing
 //@   safety[C15]
